@@ -433,6 +433,7 @@ structure Cfg where
   fromString : Bool := false     -- WithStringValues (form, path, header)
   fromArray : Bool := false      -- WithFromArray (form)
   canonical : Bool := false      -- WithCanonicalKeyFunc(textproto.CanonicalMIMEHeaderKey) (header)
+  lower : Bool := false          -- WithCanonicalKeyFunc(strings.ToLower) (core/conf)
   pinned : Bool := false         -- behaviour of the pinned commit (see header)
   deriving Repr, DecidableEq
 
@@ -455,19 +456,25 @@ def canonLoop : Str → Bool → Str
 /-- `textproto.CanonicalMIMEHeaderKey` -/
 def canonKey (s : Str) : Str := if s.all validHeaderByte then canonLoop s true else s
 
-/-- the dependency key of `optional=dep` / `optional=!dep` under a canonical-key function: the repaired code
-canonicalises the key after the `!`; the pinned commit canonicalised the whole text, which leaves `!a` as it is -/
-def canonDep (pinned : Bool) (d : Str) : Str :=
-  if pinned then canonKey d
+/-- the dependency key of `optional=dep` / `optional=!dep` under a canonical-key function `kf`: the repaired code
+canonicalises the key after the `!`; the pinned commit canonicalised the whole text, which leaves `!a` as it is
+(`textproto.CanonicalMIMEHeaderKey` does not touch a text with an invalid header byte) -/
+def canonDep (kf : Str → Str) (pinned : Bool) (d : Str) : Str :=
+  if pinned then kf d
   else match d with
     | [] => []
-    | c :: rest => if c = '!' then '!' :: canonKey rest else canonKey (c :: rest)
+    | c :: rest => if c = '!' then '!' :: kf rest else kf (c :: rest)
+
+/-- the canonical-key function of the unmarshaler: MIME header keys (rest header parser), lower case (core/conf), none -/
+def Cfg.keyFn (c : Cfg) : Option (Str → Str) :=
+  if c.canonical then some canonKey else if c.lower then some GoZero.C08.lower else none
 
 /-- `parseOptionsWithContext`: key and dependency key through the canonical-key function -/
-def canonTag (canonical pinned : Bool) (kp : Str × Option Opts) : Str × Option Opts :=
-  if canonical then
-    (canonKey kp.1, kp.2.map fun o => if o.optionalDep.isEmpty then o else { o with optionalDep := canonDep pinned o.optionalDep })
-  else kp
+def canonTag (kf : Option (Str → Str)) (pinned : Bool) (kp : Str × Option Opts) : Str × Option Opts :=
+  match kf with
+  | some kf =>
+    (kf kp.1, kp.2.map fun o => if o.optionalDep.isEmpty then o else { o with optionalDep := canonDep kf pinned o.optionalDep })
+  | none => kp
 
 /-- the `optional` that `toOptionsWithContext` computes -/
 def effOptional (o : Opts) (key : Str) (m : Obj) : Except Err Bool :=
@@ -679,7 +686,7 @@ def fromArrayValue (c : Cfg) (isSlice : Bool) (j : J) : J :=
 
 /-- key and options of a field as the unmarshaler `c` reads them -/
 def parseTagC (c : Cfg) (name : Str) (tagValue : Str) : Except Err (Str × Option Opts) :=
-  (parseTag name tagValue).map (canonTag c.canonical c.pinned)
+  (parseTag name tagValue).map (canonTag c.keyFn c.pinned)
 
 /-- `parseOptionsWithContext` after the tag is parsed: no options stay `nil`, else `toOptionsWithContext` -/
 def resolveOpts (c : Cfg) (po : Option Opts) (key : Str) (m : Obj) : Except Err (Option Opts) :=
@@ -926,6 +933,65 @@ def unmarshal (c : Cfg) (ty : Ty) (j : J) : Except Err Val :=
     | _ => .error .unsupported
   | _ => .error .outside
 
+/-! ## the YAML front end -/
+
+mutual
+/-- what `encoding.YamlToJson` does to the nulls of a document (`asIs = true`, the code: `toStringKeyMap` sends a YAML null
+through `lang.Repr(nil)` and hands on the empty *string*, at every depth); `asIs = false`: a front end that keeps nulls
+(JSON, TOML has none) -/
+def yamlNulls (asIs : Bool) : J → J
+  | .null => if asIs then .str [] else .null
+  | .arr l => .arr (yamlNullsL asIs l)
+  | .obj m => .obj (yamlNullsO asIs m)
+  | j => j
+def yamlNullsL (asIs : Bool) : List J → List J
+  | [] => []
+  | j :: rest => yamlNulls asIs j :: yamlNullsL asIs rest
+def yamlNullsO (asIs : Bool) : List (Str × J) → List (Str × J)
+  | [] => []
+  | (k, j) :: rest => (k, yamlNulls asIs j) :: yamlNullsO asIs rest
+end
+
+
+/-! ## core/mapping/valuer.go: simple and recursive (inherit) lookups
+
+A struct nested in a struct is unmarshalled from a node whose parent is the valuer of the enclosing field, so a lookup
+sees a chain of objects: the current one first, then the enclosing ones, nearest first.  `inherit` selects
+`recursiveValuer` (`createValuer`). -/
+
+/-- the objects a valuer can see: current node first, then its ancestors (nearest first) -/
+abbrev Chain := List Obj
+
+/-- `simpleValuer.Value`: the current node only -/
+def simpleValue (ch : Chain) (k : Str) : Option J :=
+  match ch with
+  | [] => none
+  | cur :: _ => getKey k cur
+
+/-- the loop of `recursiveValuer.Value`: `for k, v := range pm { if _, ok := vm[k]; !ok { vm[k] = v } }` — the child's
+own bindings stay, the parent's fill in the keys the child does not bind -/
+def mergeMissing (vm pm : Obj) : Obj := vm ++ pm.filter (fun kv => !hasKey kv.1 vm)
+
+/-- replace the binding of `k` (the merged object is the very map stored under `k`: the merge is visible to later lookups) -/
+def setKey (k : Str) (v : J) (o : Obj) : Obj := o.filter (fun kv => kv.1 ≠ k) ++ [(k, v)]
+
+/-- `recursiveValuer.Value` with the state it leaves behind: the current node's binding, else the ancestors'; when both the
+current binding and the inherited one are objects the inherited entries are merged *into the current node's object* -/
+def recValueM : Chain → Str → Option J × Chain
+  | [], _ => (none, [])
+  | cur :: parents, k =>
+    match getKey k cur with
+    | none => ((recValueM parents k).1, cur :: (recValueM parents k).2)
+    | some (.obj vm) =>
+      match (recValueM parents k).1 with
+      | some (.obj pm) =>
+        (some (.obj (mergeMissing vm pm)), setKey k (.obj (mergeMissing vm pm)) cur :: (recValueM parents k).2)
+      | _ => (some (.obj vm), cur :: (recValueM parents k).2)
+    | some v => (some v, cur :: parents)
+
+/-- the value an `inherit` lookup returns -/
+def recValue (ch : Chain) (k : Str) : Option J := (recValueM ch k).1
+
 /-! ## rest/httpx.Parse: path, form, header and JSON body unmarshalers on one target -/
 
 def httpCfgPath (pinned : Bool) : Cfg := { fromString := true, pinned := pinned }
@@ -955,13 +1021,48 @@ def formParams : List (Str × List Str) → Obj
     if (vs.filter (fun v => !v.isEmpty)).isEmpty then formParams rest
     else (stripArraySuffix k, .arr ((vs.filter (fun v => !v.isEmpty)).map .str)) :: formParams rest
 
-/-- `encoding.ParseHeaders`: a single value is handed over as a string, several as a `[]string`
+/-- the values of one key of an `http.Header`: `none` is a nil `[]string` (`http.Header{"X": nil}`), `some []` an
+empty one (a middleware that filtered every value away: `h[k] = kept[:0]`) -/
+abbrev HVals := Option (List Str)
+
+def HVals.len : HVals → Nat
+  | none => 0
+  | some l => l.length
+
+/-- `[]string` handed to the unmarshaller as a value: a nil slice behaves like an array whose elements are all null
+(`fillSlice` stores nothing: `refValue.IsNil()`), for every other target kind both are "a slice" -/
+def HVals.toJ : HVals → J
+  | none => .arr [.null]
+  | some l => .arr (l.map .str)
+
+/-- the decision of `encoding.ParseHeaders`: `len(v) == 1` ⇒ the value is handed over as a string -/
+def headerScalar (len : Int) : Bool := decide (len = 1)
+
+/-- `v[i]` in Go: an index outside `0 ≤ i < len(v)` panics -/
+def goIndex (vs : HVals) (i : Int) : Except Err Str :=
+  if i < 0 then .error .panic
+  else match (vs.getD [])[i.toNat]? with
+    | some v => .ok v
+    | none => .error .panic
+
+/-- one iteration of the loop of `encoding.ParseHeaders` for an arbitrary scalar-vs-slice decision `scalar` and
+index `idx` (the code: `if len(v) == 1 { m[k] = v[0] } else { m[k] = v }`) -/
+def headerEntryG (scalar : Int → Bool) (idx : Int) (vs : HVals) : Except Err J :=
+  if scalar vs.len then (goIndex vs idx).map .str else .ok vs.toJ
+
+/-- the loop body of `encoding.ParseHeaders` as it is written -/
+def headerEntry (vs : HVals) : Except Err J := headerEntryG headerScalar 0 vs
+
+/-- what `headerEntry` computes (total: `Props.headerEntry_total`) -/
+def headerVal : HVals → J
+  | some [v] => .str v
+  | vs => vs.toJ
+
+/-- `encoding.ParseHeaders`: a single value is handed over as a string, zero or several as a `[]string`
 (net/http has canonicalised the names) -/
-def headerParams : List (Str × List Str) → Obj
+def headerParams : List (Str × HVals) → Obj
   | [] => []
-  | (_, []) :: rest => headerParams rest
-  | (k, [v]) :: rest => (canonKey k, .str v) :: headerParams rest
-  | (k, vs) :: rest => (canonKey k, .arr (vs.map .str)) :: headerParams rest
+  | (k, vs) :: rest => (canonKey k, headerVal vs) :: headerParams rest
 
 /-- every field keeps the value of the unmarshaler that owns its tag key -/
 def mergeViews : Fields → VFields → VFields → VFields → VFields → VFields
@@ -971,22 +1072,40 @@ def mergeViews : Fields → VFields → VFields → VFields → VFields → VFie
       (mergeViews rest r1 r2 r3 r4)
   | _, _, _, _, _ => .nil
 
+/-- `httpx.ParsePath`: the path unmarshaler on the path variables -/
+def httpParsePath (pinned : Bool) (fs : Fields) (p : Obj) : Except Err VFields :=
+  unmFields (httpCfgPath pinned) (viewFields "path".toList fs) p
+
+/-- `httpx.ParseForm`: the form unmarshaler on `GetFormValues` -/
+def httpParseForm (pinned : Bool) (fs : Fields) (f : List (Str × List Str)) : Except Err VFields :=
+  unmFields (httpCfgForm pinned) (viewFields "form".toList fs) (formParams f)
+
+/-- `httpx.ParseHeaders` = `encoding.ParseHeaders(r.Header, v)`: the header unmarshaler on `headerParams` -/
+def httpParseHeaders (pinned : Bool) (fs : Fields) (h : List (Str × HVals)) : Except Err VFields :=
+  unmFields (httpCfgHeader pinned) (viewFields "header".toList fs) (headerParams h)
+
+/-- `httpx.ParseJsonBody`: the JSON unmarshaler on the body, on the empty object without one (`UnmarshalJsonMap(nil, v)`) -/
+def httpParseJsonBody (pinned : Bool) (fs : Fields) (b : Option J) : Except Err VFields :=
+  match unmarshal (httpCfgJson pinned) (.struct (viewFields "json".toList fs)) (b.getD (.obj [])) with
+  | .ok (.struct v4) => .ok v4
+  | .ok _ => .error .outside
+  | .error e => .error e
+
 /-- `httpx.Parse(r, &v)`: ParsePath, ParseForm, ParseHeaders, ParseJsonBody in this order, the first error wins;
 without a JSON body the json unmarshaler runs on the empty object -/
-def httpParse (pinned : Bool) (fs : Fields) (p : Obj) (f h : List (Str × List Str)) (b : Option J) :
+def httpParse (pinned : Bool) (fs : Fields) (p : Obj) (f : List (Str × List Str)) (h : List (Str × HVals)) (b : Option J) :
     Except Err VFields :=
-  match unmFields (httpCfgPath pinned) (viewFields "path".toList fs) p with
+  match httpParsePath pinned fs p with
   | .error e => .error e
   | .ok v1 =>
-    match unmFields (httpCfgForm pinned) (viewFields "form".toList fs) (formParams f) with
+    match httpParseForm pinned fs f with
     | .error e => .error e
     | .ok v2 =>
-      match unmFields (httpCfgHeader pinned) (viewFields "header".toList fs) (headerParams h) with
+      match httpParseHeaders pinned fs h with
       | .error e => .error e
       | .ok v3 =>
-        match unmarshal (httpCfgJson pinned) (.struct (viewFields "json".toList fs)) (b.getD (.obj [])) with
-        | .ok (.struct v4) => .ok (mergeViews fs v1 v2 v3 v4)
-        | .ok _ => .error .outside
+        match httpParseJsonBody pinned fs b with
         | .error e => .error e
+        | .ok v4 => .ok (mergeViews fs v1 v2 v3 v4)
 
 end GoZero.C08
